@@ -417,8 +417,15 @@ class Interp:
                     continue
                 val = self.eval(unit, v.get("init"), env, this) if v.get("init") is not None else ("sym", v.get("name"))
                 env.vars[v["id"]] = val
+                base_loc = None
+                if self.cfg.lvalues and v.get("bindings"):
+                    # structured bindings name the elements of the initialiser (by reference) or of the hidden copy
+                    is_ref = v.get("ref") in ("lref", "rref", "fwd") or (unit.ty(v.get("t")) or "").rstrip().endswith("&")
+                    base_loc = self.lv(unit, v.get("init"), env, this) if is_ref and v.get("init") is not None else None
+                    if base_loc is None:
+                        base_loc = ("@var", env, v["id"])
                 for i, b in enumerate(v.get("bindings", []) or []):
-                    env.vars[b["id"]] = ("elem", val, i)
+                    env.vars[b["id"]] = ("@ref", ("@idx", base_loc, i)) if base_loc is not None else ("elem", val, i)
             return
         if k == "if":
             inner = Env(env)
@@ -454,6 +461,23 @@ class Interp:
                     break
                 except _Continue:
                     continue
+            return
+        if k == "do":
+            n = 0
+            while True:
+                if n > self.cfg.loop_bound:
+                    self.event("loop-bound", [], unit.loc(s.get("loc")))
+                    raise _Truncated()
+                n += 1
+                try:
+                    self.exec_stmt(unit, s.get("body"), Env(env), this)
+                except _Break:
+                    break
+                except _Continue:
+                    pass
+                c = self.eval(unit, s.get("cond"), env, this)
+                if not self.truth(c):
+                    break
             return
         if k == "for":
             inner = Env(env)
@@ -744,7 +768,7 @@ class Interp:
             return ("elem", b, i[1] if is_const(i) else i)
         if k == "sizeof":
             return ("k", n.get("c"))
-        if k in ("compound", "decl", "if", "return"):
+        if k in ("compound", "decl", "if", "return", "do"):
             self.exec_stmt(unit, n, env, this)
             return ("k", None)
         if k == "opaque" and n.get("ch"):
@@ -782,6 +806,8 @@ class Interp:
                 return d[name]
         if isinstance(b, tuple) and b and b[0] == "tuple" and name in ("first", "second") and len(b[1]) == 2:
             return b[1][0 if name == "first" else 1]
+        if isinstance(b, tuple) and b and b[0] == "new" and b[1] == "std::pair" and name in ("first", "second") and len(b[3]) == 2:
+            return b[3][0 if name == "first" else 1]
         if isinstance(b, tuple) and b and b[0] == "deref":
             return ("fld", b[1], name)
         return ("fld", b, name)
@@ -793,7 +819,7 @@ class Interp:
         if n is None:
             return None
         k = n.get("k")
-        if k == "ref" and n.get("dk") in ("local", "param", "static_local"):
+        if k == "ref" and n.get("dk") in ("local", "param", "static_local", "binding"):
             e = env.find(n["id"])
             if e is None:
                 return None
@@ -806,7 +832,10 @@ class Interp:
                 return this[1]
             return None
         if k == "unop" and n.get("op") == "*":
-            return self.lv(unit, n.get("e"), env, this)
+            e0 = T.unwrap(unit, n.get("e"))
+            if e0 is not None and e0.get("k") == "this":
+                return self.lv(unit, e0, env, this)
+            return None      # the pointee of a pointer / iterator is not the variable that holds it
         if k == "member":
             b = self.lv(unit, n.get("base"), env, this)
             return ("@fld", b, n.get("name")) if b is not None else None
@@ -929,6 +958,8 @@ class Interp:
                 nb = ("rec", b[1], tuple((f, v if f == l[2] else x) for f, x in b[2]))
             elif isinstance(b, tuple) and b and b[0] == "tuple" and l[2] in ("first", "second") and len(b[1]) == 2:
                 nb = ("tuple", (v, b[1][1]) if l[2] == "first" else (b[1][0], v))
+            elif isinstance(b, tuple) and b and b[0] == "new" and b[1] == "std::pair" and l[2] in ("first", "second") and len(b[3]) == 2:
+                nb = ("new", b[1], b[2], (v, b[3][1]) if l[2] == "first" else (b[3][0], v))
             else:
                 raise Unsupported("store into field %s of %s" % (l[2], show(b)))
             return self.store_loc(l[1], nb)
@@ -1318,6 +1349,8 @@ def _elems(v):
             continue
         if isinstance(v, tuple) and v and v[0] == "tuple":
             return list(v[1])
+        if isinstance(v, tuple) and v and v[0] == "new" and v[1] in ("std::pair", "std::tuple", "fcppt::tuple::object") and v[2] != "agg":
+            return list(v[3])
         el = list_elems(v)
         if el is not None:
             return list(el)
@@ -1340,6 +1373,12 @@ def _with_elem(v, i, x):
         if 0 <= i < len(el):
             el[i] = x
             return ("list", tuple(el))
+        return None
+    if isinstance(v, tuple) and v and v[0] == "new" and v[1] in ("std::pair", "std::tuple", "fcppt::tuple::object") and v[2] != "agg":
+        el = list(v[3])
+        if 0 <= i < len(el):
+            el[i] = x
+            return ("new", v[1], v[2], tuple(el))
         return None
     if isinstance(v, tuple) and v and v[0] == "new" and v[1] in LIST_CLASSES:
         el = list_elems(v)
